@@ -108,14 +108,18 @@ fn walk(cst: &Cst<'_>, i: usize, leaves: &mut Vec<(Token, usize, Span)>, depth: 
     }
 }
 
+fn run_parse<'a>(src: &'a str, which: usize, diags: &mut Vec<Diagnostic>) -> Cst<'a> {
+    let parser = Parser::new(src, diags);
+    match which { @ENTRIES@ _ => parser.parse(diags) }
+}
+
 fn check(src: &str, which: usize) -> Result<(), Fail> {
     let toks: Vec<Token> = src.chars().map(tok_of).collect();
     let mut diags = vec![];
     BADCB.store(0, Ordering::SeqCst);
     LASTFLAG.store(0, Ordering::SeqCst);
     ERRNODES.store(0, Ordering::SeqCst);
-    let parser = Parser::new(src, &mut diags);
-    let cst = match which { @ENTRIES@ _ => parser.parse(&mut diags) };
+    let cst = run_parse(src, which, &mut diags);
     let mut leaves = vec![];
     let last = walk(&cst, 0, &mut leaves, 0)?;
     if leaves.len() != toks.len() { return Err(Fail(format!("C01 the tree has {} token leaves, the input has {} tokens", leaves.len(), toks.len()))); }
@@ -134,9 +138,40 @@ fn check(src: &str, which: usize) -> Result<(), Fail> {
     // pending any more (this is the `!in_ordered_choice` clause of the rule contract, which is only
     // ASSUMED for functions outside Verus' subset)
     if LASTFLAG.load(Ordering::SeqCst) != 0 { return Err(Fail("@CHOICEPROP@ the parse is over but the parser still believes it is inside an undoable alternative (in_ordered_choice is set): later mismatches return silently instead of being reported".into())); }
-    if ERRNODES.load(Ordering::SeqCst) != 0 && !diags.iter().any(|d| d.syntax) { return Err(Fail("@CHOICEPROP@ the tree contains an error node but no syntax diagnostic was reported (a mismatch was swallowed)".into())); }
+    // (any diagnostic counts: a user assertion's diagnostic also puts the parser into the error state, after
+    // which skipped tokens are collected in an error node without a further report)
+    if ERRNODES.load(Ordering::SeqCst) != 0 && diags.is_empty() { return Err(Fail("@CHOICEPROP@ the tree contains an error node but no diagnostic was reported (a mismatch was swallowed)".into())); }
     let _ = format!("{}", cst);
+    // C16 (relational, bounded): the same input without its skipped and lexer-error tokens yields the same
+    // tree once skipped leaves are ignored, and the same diagnostics at the corresponding tokens
+    if toks.iter().any(|t| is_skip(*t)) {
+        let stripped: String = src.chars().filter(|c| !is_skip(tok_of(*c))).collect();
+        let mut diags2 = vec![];
+        CALLS.store(0, Ordering::SeqCst);
+        let cst2 = run_parse(&stripped, which, &mut diags2);
+        let (mut a, mut b) = (String::new(), String::new());
+        canon(&cst, 0, &mut a);
+        canon(&cst2, 0, &mut b);
+        if a != b { return Err(Fail(format!("C16 removing the skipped tokens changes the tree: with them {} -- without them {}", a, b))); }
+        // position of a diagnostic = number of non-skipped tokens before it
+        let map = |p: usize| -> usize { toks.iter().take(p).filter(|t| !is_skip(**t)).count() };
+        let d1: Vec<(usize, &str, bool)> = diags.iter().map(|d| (map(d.span.start), d.msg.as_str(), d.syntax)).collect();
+        let d2: Vec<(usize, &str, bool)> = diags2.iter().map(|d| (d.span.start, d.msg.as_str(), d.syntax)).collect();
+        if d1 != d2 { return Err(Fail(format!("C16 removing the skipped tokens changes the diagnostics: with them {:?} -- without them {:?}", d1, d2))); }
+    }
     Ok(())
+}
+
+// the tree with skipped token leaves left out: rule kinds and the other token leaves in pre-order
+fn canon(cst: &Cst<'_>, i: usize, out: &mut String) {
+    match cst.get(NodeRef(i)) {
+        Node::Token(t, _) => { if !is_skip(t) { out.push_str(&format!("{:?} ", t)); } }
+        Node::Rule(kind, _) => {
+            out.push_str(&format!("({:?} ", kind));
+            for c in cst.children(NodeRef(i)) { canon(cst, c.0, out); }
+            out.push_str(") ");
+        }
+    }
 }
 
 fn main() {
@@ -209,8 +244,7 @@ fn main() {
                         let s2 = s.clone();
                         let r = std::panic::catch_unwind(move || {
                             let mut diags = vec![];
-                            let parser = Parser::new(&s2, &mut diags);
-                            let cst = match which { @ENTRIES@ _ => parser.parse(&mut diags) };
+                            let cst = run_parse(&s2, which, &mut diags);
                             let mut out = format!("{}", cst);
                             for d in &diags { out.push_str(&format!("|{:?}{:?}{}", d.span, d.msg, d.syntax)); }
                             out
@@ -294,7 +328,7 @@ def build_harness(gen_text, outdir):
         cbs.append("    fn create_node_%s(&mut self, r: NodeRef, _d: &mut Vec<Self::Diagnostic>) { LASTFLAG.store(self.in_ordered_choice as usize, Ordering::SeqCst); match self.cst.data.nodes.get(r.0) { Some(Node::Rule(Rule::%s, _)) => {}, _ => { BADCB.fetch_add(1, Ordering::SeqCst); } } }" % (name, var))
     entries = re.findall(r"pub fn (parse_\w+)\(mut self", gen_text)
     entries = [e for e in entries if e != "parse_rule"]
-    ent = " ".join("%d => parser.%s(&mut diags)," % (i + 1, e) for i, e in enumerate(entries))
+    ent = " ".join("%d => parser.%s(diags)," % (i + 1, e) for i, e in enumerate(entries))
     npat = 1
     if preds or asserts:
         npat = 1 << min(4, 2 * (len(preds) + len(asserts)))
